@@ -163,6 +163,13 @@ def run(desc, M):
         phi.values[(0,) * phi.values.ndim] = 7
         phi.state_names["c"] = ["changed"]
         check_cpd(desc, M, cpd, pa, T, "after mutating to_factor() result", order=pa)
+        # the table is taken by value: a CPD built from an ndarray keeps its entries when the caller re-uses that buffer afterwards
+        from pgmpy.factors.discrete import TabularCPD
+        arr = np.ascontiguousarray(np.array(M.impl_table(tab), dtype=object if M.symbolic else float))
+        sn = {v: C.state_names(desc["states"], v, card[v]) for v in ["c"] + pa} if desc["states"] != "default" else None
+        cpd2 = TabularCPD("c", card["c"], arr, evidence=pa or None, evidence_card=[card[p] for p in pa] or None, **({"state_names": sn} if sn else {}))
+        arr[...] = 7
+        check_cpd(desc, M, cpd2, pa, T, "built from an ndarray the caller overwrites afterwards", order=pa)
     elif fam == "cpd/normalize":
         cpd = mk_cpd(desc, M, tab)
         s0 = snap(cpd)
